@@ -39,7 +39,7 @@ PROPERTIES = {
         "explanation": "R-TRUTHY over every boolean context of every function; R-FILLFLOW over the fill sinks; R-PARALLEL over the min_count branch; R-IDENTITYCODES: labels are their own codes only for integer labels and the index 0..n-1, both ends masked",
     },
     "C12": {
-        "rules": [rule_lazy, M.rule_combinebypass, CD.rule_placeholder, rule_partialunknown, rule_semneutral],
+        "rules": [rule_lazy, M.rule_combinebypass, CD.rule_placeholder, rule_partialunknown, rule_semneutral, M.rule_armdtype],
         "thorough": [selftest, seeded_regression],
         "technique": "predicate abstraction over dask-ness atoms on the CFG (bitset valuations, no solver) with function summaries",
         "level_text": "Static, all-paths: on every path of the API entry points (and of every function they call while building a "
@@ -124,7 +124,7 @@ PROPERTIES = {
         "explanation": "R-SCANTABLE, R-STABLE, R-PROMOTE, R-PURE (the scan combine is a node of a parallel-prefix tree: it may not write into an operand another node reads), R-KINDMISSING (the 'no missing values' shortcut of fill scans fires only for kinds without a missing value)",
     },
     "C11": {
-        "rules": [M.rule_dtypetable, M.rule_finalcast, M.rule_promote, PR.rule_pairs_outinds, M.rule_reindexdtype, M.rule_subsumed, M.rule_accdtype, M.rule_finaldeps, M.rule_roundtrip, M.rule_fillwiden, rule_blockbcast, rule_arity, M.rule_fillcast, M.rule_promoteidem, rule_predfamily],
+        "rules": [M.rule_dtypetable, M.rule_finalcast, M.rule_promote, PR.rule_pairs_outinds, M.rule_reindexdtype, M.rule_subsumed, M.rule_accdtype, M.rule_finaldeps, M.rule_roundtrip, M.rule_fillwiden, rule_blockbcast, rule_arity, M.rule_fillcast, M.rule_promoteidem, rule_predfamily, M.rule_armdtype],
         "thorough": [selftest, seeded_regression],
         "technique": "dtype convention table; CFG must-pass-through of the final cast; access-path agreement of announced meta",
         "level_text": "Static, all-paths: blueprint dtype declarations follow the NumPy convention table, every path of the finalizer casts "
@@ -161,7 +161,7 @@ PROPERTIES = {
         "explanation": "R-COLLIDE, R-CASTORDER, R-INFRESOLVE, R-VARSHIFT, R-ACCDTYPE (integer block accumulators are as wide as the final dtype)",
     },
     "C03": {
-        "rules": [rule_keys, rule_order, rule_axiskey, rule_global, rule_algebra, rule_contig, rule_pure, rule_passthrough_sort, rule_wholepart, rule_counter, M.rule_combinecast],
+        "rules": [rule_keys, rule_order, rule_axiskey, rule_global, rule_algebra, rule_contig, rule_pure, rule_passthrough_sort, rule_wholepart, rule_counter, M.rule_combinecast, M.rule_armdtype],
         "thorough": [selftest, seeded_regression],
         "technique": "def-use closure of graph keys over enclosing loops; taint (unordered source -> block selection) with sanitizers; "
                      "module-state scan; associativity column of the monoid table",
@@ -230,7 +230,7 @@ LATER = {
     "C11": "input representation restored under head flags only and never for integer-valued results (R-ROUNDTRIP); fill widening on every path "
            "(R-FILLWIDEN); blockwise plans see broadcast labels (R-BLOCKBCAST); chunk / index / key tuples have one entry per dimension for "
            "every number of reduced axes (R-ARITY, a tuple-arity algebra). maybe_promote is the identity on dtypes with a missing value (R-PROMOTEIDEM); predicates treat names and Aggregation objects alike (R-PREDFAMILY); fill written after the final cast (R-FILLCAST).",
-    "C12": "placeholder labels of all-missing blocks are typed like the labels (R-PLACEHOLDER). Unknown labels refused for every partial-axis reduction (R-PARTIALUNKNOWN). The request handed to the blueprint does not depend on chunkedness (R-SEMNEUTRAL).",
+    "C12": "placeholder labels of all-missing blocks are typed like the labels (R-PLACEHOLDER). Unknown labels refused for every partial-axis reduction (R-PARTIALUNKNOWN). The request handed to the blueprint does not depend on chunkedness (R-SEMNEUTRAL). Every arm of chunk_reduce builds its result in the paired dtype (R-ARMDTYPE).",
     "C13": "property getters of graph-embedded classes do not write through self (R-GETTER); caller containers copied (R-CAPTURE). No process-local resource in a blueprint attribute (R-PICKLE attribute clause).",
     "C14": "no task writes through its input (R-PURE). Caller containers are copied before being stored (R-CAPTURE); the engine is part of the graph keys (R-TOKEN). Process-wide options of other libraries changed only inside a `with` (R-OPTIONS).",
     "C16": "per-block and combine-step label lists follow `sort` (R-BLOCKLABELS). The finalizer's re-index is skipped only for order-equal labels (R-REINDEXSKIP); per-block label lists in block order (R-BLOCKLABELS). Options left open by a partial are supplied at every final use (R-PASSTHROUGH partial clause).",
